@@ -75,7 +75,9 @@ class Profiles:
         'number': r'{num}',
         'string': r'{string1}|{string2}',
         'string1': r'"(\\\"|[^\"])*"',
-        'uri': r'url\({w}({string}|(\\\)|[^\)])+){w}\)',
+        # as the URI token of CSS 2.1: quoted, or without white space, quotes
+        # and parentheses (escaped ones aside); it may be empty
+        'uri': r'url\({w}({string}|(\\.|[^\s\(\)\'"\\])*){w}\)',
         'string2': r"'(\\\'|[^\'])*'",
         'nl': r'\n|\r\n|\r|\f',
         'w': r'\s*',
@@ -685,7 +687,7 @@ properties[Profiles.CSS3_BASIC_USER_INTERFACE] = {
 # CSS Box Module Level 3
 macros[Profiles.CSS3_BOX] = {'overflow': macros[Profiles.CSS_LEVEL_2]['overflow']}
 properties[Profiles.CSS3_BOX] = {
-    'overflow': '{overflow}{w}{overflow}?|inherit',
+    'overflow': r'{overflow}(\s+{overflow})?|inherit',
     'overflow-x': '{overflow}|inherit',
     'overflow-y': '{overflow}|inherit',
 }
